@@ -41,14 +41,20 @@ T = {
               "first missed by C20 (unchanged = vertices and faces only), caught after the whole stored state and derived answers were compared"),
  (3, "C01"): ("ConvexPolyhedron._compute_inertia_tensor(centered=True) shifts by the vertex mean while inertia_tensor translates with the centroid", "centroid != vertex mean (pyramids, cupolae, irregular hulls)", ["C01"], ""),
  (3, "C02"): ("Polyhedron.get_face_area(faces) indexes self.faces[i] instead of self.faces[face_index]", "general Polyhedron, a non-identity face selection, unequal face areas", ["C02"], ""),
+ (3, "C03"): ("ConvexPolyhedron caches _simplex_areas on the first get_face_area / face_centroids call; _rescale never refreshes them", "query, then a rescaling setter, then get_face_area on the same object", ["C03"], ""),
+ (3, "C04"): ("Polygon.__init__ stores the vertex-derived normal with sign(abs(dot)) = +1, whatever direction the caller asked for", "explicit normal anti-parallel to cross(v2 - v1, v0 - v1)", ["C04", "C15"],
+              "first missed by C04 (its oracle read the normal back from the polygon), caught after 'normal = requested' was claimed"),
  (3, "C05"): ("Polyhedron.is_inside: v1sign takes its y tie-break from vertex 0", "general Polyhedron and a query point sharing an exact x coordinate with a vertex", ["C05"], ""),
  (3, "C06"): ("Circle.is_inside subtracts the centre from the caller's float64 array in place", "off-origin circle, points passed as a float64 ndarray and used again", ["C06", "C16"],
               "first missed by C06 (fresh points per call), caught after 'caller's points unchanged' and 'same array again' were added"),
  (3, "C07"): ("Polyhedron.edges drops the closing edge of every face (zip(face[:-1], face[1:]))", "general Polyhedron with a face whose last label is smaller than its first", ["C07"], ""),
+ (3, "C08"): ("Polygon._rescale scales only x and y of the stored Nx3 vertices", "polygon in a tilted plane and any size setter", ["C08"], ""),
  (3, "C09"): ("Polyhedron.is_inside: v2sign takes its y tie-break from vertex 1", "general Polyhedron and a query point sharing an exact x coordinate with a vertex", ["C05"],
               "C09's containment obligations use query points in general position and stay quiet; the wrong membership itself is decided by C05 (free query point, ties included)"),
  (3, "C10"): ("translate_inertia_tensor returns early when isclose(|d|^2, 0): centres within 1e-4 of the origin are treated as centred", "small shape (1e-3..1e-2) with a centre off the origin by less than 1e-4", ["C10"],
               "first only 'unreproduced' (the solver's witness differed by less than float noise at unit scale); caught after claim_eq started asking for a witness with a relative difference above 1e-5 and replaying it purely relatively"),
+ (3, "C11"): ("ConvexSpheropolyhedron.volume / surface_area return the core's values when isclose(radius, 0)", "rounding radius positive but <= 1e-8 (small-scale shapes)", ["C11"],
+              "caught with a witness at scale 1/1024 and radius 2^-27 (significant-witness refinement of claim_eq)"),
  (3, "C12"): ("Sphere form factor applies the position phase only if all centre coordinates are non-zero (np.all for np.any)", "sphere centred on a coordinate axis or plane, off the origin", ["C12"],
               "first missed (centres only at the origin and in general position), caught after axis / plane centres were added"),
  (3, "C13"): ("ConvexPolygon.maximal_centered_bounded_circle builds edges with np.diff: the closing edge is left out", "the closing edge (last -> first vertex) is strictly the nearest to the centroid", ["C13"],
